@@ -869,8 +869,11 @@ def judge_program(ev, out):
         okseed = r.get("n") == N and r.get("o") == order and all(
             v == (1.0 if (k[0] == "grad" and k[1] == i) else (ob[("value", 0, 0)] if k[0] == "value" else 0.0)) for k, v in ob.items())
         cov["seed-judged"] += 1
+        cov["seed:%s/%s" % (ev.get("seedmode"), ev.get("history", "fresh objects"))] += 1
         if not okseed:
-            viol("seed", "Variables" if ev.get("seedmode") == 0 else "SetVariable", "any", "seed", "input %d after activation: %s" % (i, json.dumps(r)))
+            viol("seed", str(ev.get("seedmode")), str(ev.get("history", "fresh objects")), "seed",
+                 "input %d after activation by %s (%s) is not a clean seed (g = e_i, H = 0, N = %d, order = %d): %s" % (
+                     i, ev.get("seedmode"), ev.get("history"), N, order, json.dumps(r)))
     results, supports = [], []
     gl = list(inputs)           # global evaluation: jets with tracked error from the inputs
     gres = []
